@@ -192,6 +192,26 @@ func checkC10(c *Ctx) {
 		}
 		return true, nil
 	}
+	// Helpers of the package are part of the two functions, except the channel predicates and the leaf matchers
+	// (bool functions over criteria values, not over a whole route), which the rules refer to by role.
+	keepLeaf := func(callee *ssa.Function) bool {
+		if preds[callee] {
+			return true
+		}
+		r := callee.Signature.Results()
+		if r.Len() != 1 || !types.Identical(r.At(0).Type(), types.Typ[types.Bool]) {
+			return false
+		}
+		ps := callee.Signature.Params()
+		for i := 0; i < ps.Len(); i++ {
+			if namedName(ps.At(i).Type()) == "CompiledRoute" {
+				return false
+			}
+		}
+		return callee.Signature.Recv() == nil
+	}
+	f = p.ViewKeeping(f, keepLeaf)
+	g = p.ViewKeeping(g, keepLeaf)
 	ys := yielding(f)
 	c.Floor("C10.R1", "route_yielding_returns", len(ys), 1)
 	ce := channelEdges(f)
@@ -346,7 +366,7 @@ func checkC10(c *Ctx) {
 			if loopHeaderOf(ap.Block()) == nil {
 				continue
 			}
-			if okp, path := routeLoopMustPass(p, g, ap, ok); !okp {
+			if okp, path := routeLoopMustPass(p, g, ap, append(append([]Edge{}, ok...), requestNilEdges(g)...)); !okp {
 				bad = true
 				c.Fail("C10.R2", key, p.InstrPos(ap), "methods collected without the "+m.about+" criterion having matched", path...)
 			}
@@ -414,7 +434,7 @@ func checkC10(c *Ctx) {
 								}
 							}
 						}
-						if okp, _ := p.MustPass(serve, s.Instr, ge); !okp || len(ge) == 0 {
+						if okp, _ := p.MustPass(serve, s.At(), ge); !okp || len(ge) == 0 {
 							okAllow = false
 						}
 					}
@@ -423,7 +443,11 @@ func checkC10(c *Ctx) {
 				}
 			}
 			sort.Slice(codes, func(i, j int) bool { return codes[i] < codes[j] })
-			okCodes := len(codes) == 2 && codes[0] == 404 && codes[1] == 405
+			set := map[int64]bool{}
+			for _, cd := range codes {
+				set[cd] = true
+			}
+			okCodes := len(set) == 2 && set[404] && set[405]
 			c.Check(okCodes && okAllow, "C10.R3", "ingress.ServeHTTP:not-found-statuses", p.InstrPos(res[0]), "not-resolved answers 405 only behind len(allowed)>0, else 404", fmt.Sprintf("not-resolved path answers %v (405 behind allowed-methods=%v); must be exactly {404, 405-with-Allow}", codes, okAllow))
 		}
 	}
@@ -483,15 +507,78 @@ func checkMatchBoundaries(c *Ctx, rule string, resolver *ssa.Function) {
 			continue
 		}
 		for _, ci := range allCalls(fn, func(ci ssa.CallInstruction) bool {
-			return calleeIs(ci, "strings", "", "HasSuffix") || calleeIs(ci, "strings", "", "HasPrefix")
+			return calleeIs(ci, "strings", "", "HasSuffix") || calleeIs(ci, "strings", "", "HasPrefix") || calleeIs(ci, "strings", "", "CutPrefix") || calleeIs(ci, "strings", "", "CutSuffix")
 		}) {
 			call := ci.(*ssa.Call)
-			isSuffix := call.Call.StaticCallee().Name() == "HasSuffix"
+			isSuffix := strings.HasSuffix(call.Call.StaticCallee().Name(), "Suffix")
+			isCut := strings.HasPrefix(call.Call.StaticCallee().Name(), "Cut")
 			pat := call.Call.Args[1]
 			if _, isConst := pat.(*ssa.Const); isConst {
 				continue // fixed marker such as "*." — not a partial match against configuration
 			}
 			n++
+			if isCut {
+				// strings.CutPrefix(x, pattern): the remainder must start (end) with the boundary character wherever the
+				// verdict can be true
+				key := fmt.Sprintf("%s:%s-boundary", FuncName(fn), map[bool]string{true: "suffix", false: "prefix"}[isSuffix])
+				var rest ssa.Value
+				for _, ref := range *call.Referrers() {
+					if ex, ok := ref.(*ssa.Extract); ok && ex.Index == 0 {
+						rest = ex
+					}
+				}
+				bname, bchar := "HasPrefix", "/"
+				if isSuffix {
+					bname, bchar = "HasSuffix", "."
+				}
+				var bcalls []ssa.CallInstruction
+				bvals := map[ssa.Value]bool{}
+				if rest != nil {
+					for _, ref := range *rest.Referrers() {
+						if bc, ok := ref.(*ssa.Call); ok && calleeIs(bc, "strings", "", bname) && bc.Call.Args[0] == rest {
+							if cs, ok := constString(bc.Call.Args[1]); ok && cs == bchar {
+								bcalls = append(bcalls, bc)
+								bvals[bc] = true
+							}
+						}
+					}
+				}
+				okB := len(bcalls) > 0
+				bTrue, _, _ := GuardEdges(fn, bcalls, BoolTrue)
+				matched, _, _ := GuardEdges(fn, []ssa.CallInstruction{call}, BoolTrue)
+				for _, r := range returnsOf(fn) {
+					if len(r.Results) == 0 {
+						continue
+					}
+					alts := []ssa.Value{r.Results[0]}
+					var via []*ssa.BasicBlock
+					if phi, ok := r.Results[0].(*ssa.Phi); ok {
+						alts = phi.Edges
+						via = phi.Block().Preds
+					}
+					for ai, alt := range alts {
+						if bvals[alt] {
+							continue
+						}
+						if cst, ok := alt.(*ssa.Const); ok && cst.Value != nil && cst.Value.String() == "false" {
+							continue
+						}
+						at := ssa.Instruction(r)
+						if via != nil {
+							at = via[ai].Instrs[len(via[ai].Instrs)-1]
+						}
+						// a possibly-true verdict: only acceptable when not reachable from the partial match's ok edge
+						// without the boundary test's true edge
+						if len(matched) > 0 {
+							if okn, _ := p.NoPathFrom(matched, at, bTrue); !okn {
+								okB = false
+							}
+						}
+					}
+				}
+				c.Check(okB, rule, key, p.InstrPos(call), "the remainder after the configured "+map[bool]string{true: "suffix", false: "prefix"}[isSuffix]+" is tested for the boundary character", "a partial "+map[bool]string{true: "suffix", false: "prefix"}[isSuffix]+" match (Cut) decides routing without a label/segment boundary (look-alike names would match)")
+				continue
+			}
 			key := fmt.Sprintf("%s:%s-boundary", FuncName(fn), map[bool]string{true: "suffix", false: "prefix"}[isSuffix])
 			okB := false
 			how := ""
